@@ -29,7 +29,12 @@ def step(expr, action, registry, shift=0, snapshot=False, sink=False):
     pipeline = c03.make_expr(expr)
     if action[0] == 'perftrack':
         pipeline = pipeline >> evaluation.PerfTrackScore(Metric())
-    composition = flow.Composition(c03.source(), pipeline)
+    if action[0] == 'perftrack':
+        # as the runner does (Runner._build): source, pipeline >> evaluation, sink - the sink gives the apply segment its
+        # explicit tail (without one, re-tracing the copied apply segment of a pipeline with merging branches is ambiguous)
+        composition = flow.Composition(c03.source(), pipeline, c03.make_operator({'apply': ['psink', 0, False], 'train': 'same'}))
+    else:
+        composition = flow.Composition(c03.source(), pipeline)
     persistent = list(composition.persistent)
     if action[0] == 'train':
         previous = dict(zip(persistent, registry[-1])) if registry else {}
